@@ -18,6 +18,14 @@ open VaxisModel.Gen VaxisModel.Lemmas.SurfExec
 attribute [local simp] run exec evalE mkEnv Env.get Env.set applyFn getFld fldInt fldU16 Except.map assignTo setField evalSel
   bindLoopVar binop arithU arithI isLit leave evalCon callStmt callHead asU16 zeroOf u16OfLit rangeItems bindIt
 
+/-- The translator recognised every statement and expression of the bodies the theorems below execute. -/
+theorem bodies_fully_recognised :
+    [SurfaceBodies.newSurface, SurfaceBodies.newSubSurface, SurfaceBodies.addChild, SurfaceBodies.writeCell, SurfaceBodies.fill,
+     SurfaceBodies.render, SurfaceBodies.hasUnboundedWidth, SurfaceBodies.hasUnboundedHeight, SurfaceBodies.centerDraw,
+     SurfaceBodies.textFindContainerSize, SurfaceBodies.richFindContainerSize, SurfaceBodies.textDrawSoftwrap,
+     SurfaceBodies.richDrawSoftwrap, SurfaceBodies.textDraw, SurfaceBodies.richDraw].all (fun b => !b.hasUnknown) = true := by
+  decide +kernel
+
 /-- **NewSurface**: `Surface{Size{width,height}, Widget, Buffer: make([]Cell, int(height)*int(width))}` is the model's
 `newSurface` with the length computed in `int` — W·H cells for every W, H, also beyond 65 535. -/
 theorem newSurface_body_eq_model (R : Ro) (w h : UInt16) (wd : Val) (scr : Screen) :
